@@ -130,9 +130,10 @@ def wireNet (wd : List Nat) : Except CErr Net := do
 def reref (ref0 : Int) (r : Int) : Int := if r = 0 then ref0 else r
 
 /-- `gate.as_tensornet()` with the data references of the circuit's key space -/
+def rerefTensor (ref0 : Int) (t : STensor) : STensor := { t with dataref := t.dataref.map (reref ref0) }
+
 def rerefTN (ref0 : Int) (tn : TN α) : TN α :=
-  { net := { tn.net with tensors := tn.net.tensors.map
-      (fun e => (e.1, { e.2 with dataref := e.2.dataref.map (reref ref0) })) },
+  { net := ⟨tn.net.tensors.map (fun e => (e.1, rerefTensor ref0 e.2)), tn.net.bonds⟩,
     data := tn.data.map (fun e => (reref ref0 e.1, e.2)) }
 
 /-- `perm = list(range(2*nwires)); for i in iwire: perm.remove(i); perm += iwire` -/
@@ -198,6 +199,8 @@ def contractEinsum (tn : TN α) : Except TNet.Err (DT α × List Nat) := do
       | some p => match shape[p]? with
         | none => throw TNet.Err.indexError
         | some d => pure (some (DT.ofFn [d] (fun _ => (1 : α)), [j])))
+  -- `np.einsum(idxout)` without any operand: "Number of einsum subscripts must be equal to the number of operands"
+  if (args ++ ones).isEmpty then throw TNet.Err.valueError
   let r ← einsumEval (args ++ ones) e.idxout
   return (r, e.axesMap)
 
